@@ -809,6 +809,11 @@ def _wrap2(pyop, name):
         try:
             r = pyop(a, b)
         except TypeError:
+            for o in (a, b):
+                if type(o).__name__ in ('IdxAny', 'UnkIndexSet') and getattr(o, 'tags', None):
+                    # arithmetic on an index computed from data: the run cannot go on, what the index depends on is known
+                    from .dv import DataDependentInt
+                    raise DataDependentInt(o.tags, 'arithmetic (%s) on an index computed from data' % name)
             plain = (int, float, Fr, str, bytes, list, tuple, dict, type(None))
             if isinstance(a, plain) and isinstance(b, plain):
                 # python's own operands: the TypeError is the behaviour of the program (1 / 'x', [] - 1, None * 2.0 ...)
